@@ -9,12 +9,12 @@ pub fn new_default_complete_constraints_encoder<T>() -> Box<dyn ConstraintsEncod
 where
     T: LabelType,
 {
-    Box::new(aux_var_constraints_encoder::new_for_conflict_freeness())
+    Box::new(aux_var_constraints_encoder::new_for_complete_semantics())
 }
 
 pub mod exp_constraints_encoder;
 
-/// Returns the default encoder for complete semantics.
+/// Returns the default encoder for conflict-freeness.
 pub fn new_default_conflict_freeness_encoder<T>() -> Box<dyn ConstraintsEncoder<T>>
 where
     T: LabelType,
